@@ -12,7 +12,7 @@ def table : List TableEntry := [
     parsesOwnElement := true, soapParser := true, forwardsMust := true, forwardsCertOnly := true },
   -- attribute_service: AttributeQuery, msgtype attribute_query, signature_check -> attribute_query
   { service := 120274470597582041289069069202559840379749, cls := 6519879988200188306465153307996793, msgtype := 1835242776452362690568070505632723577, checkedMsgtype := 1835242776452362690568070505632723577,
-    parsesOwnElement := true, soapParser := true, forwardsMust := true, forwardsCertOnly := false },
+    parsesOwnElement := true, soapParser := true, forwardsMust := true, forwardsCertOnly := true },
   -- authn_query_service: AuthnQuery, msgtype authn_query, signature_check -> authn_query
   { service := 7882394804102688780778706385227325186968740709, cls := 1518046298133382249673337, msgtype := 427305478549829365757473401, checkedMsgtype := 427305478549829365757473401,
     parsesOwnElement := true, soapParser := true, forwardsMust := true, forwardsCertOnly := true },
